@@ -1,10 +1,10 @@
-SPECIFICATION Spec
+INIT ExportInit
+NEXT ExportNext
 CONSTANTS
   Cases <- MCCases
-  Export = TRUE
+  Export = FALSE
   Dev_S21_HookUnbound = FALSE
   Dev_S22_DbClosedBeforeMeta = FALSE
   Dev_S23_SigintMetaZero = FALSE
   Dev_S23b_DbOpenBeforeTry = FALSE
-INVARIANT TypeOK
 CHECK_DEADLOCK FALSE
